@@ -67,7 +67,7 @@ LEVEL_NOTE = ('Trusted: Coq kernel; the translator\'s primitive table (leaf clai
               'representation, the unchecked list.remove on order/req_* which is unreachable by C18_rep_reachable, the fuel = '
               'len(graph) of the while loop whose exhaustion is proved impossible); the hand-written model of the untranslated '
               'functions (pinned); the tables of the directive and make translators (pred.phash() opaque); Python harness (incl. the '
-              'include/override rule of batch histories). The wire-level judges are proved through the outermost run_C18 dispatch for tags 0-7 (not tag 8).')
+              'include/override rule of batch histories). The wire-level judges are proved through the outermost run_C18 dispatch for tags 0-7; for tag 8 (make) at the decoded level (C18_wire_make_judged).')
 ALLOWED_AXIOMS = ()
 PROOF_TIMEOUT = 1500
 
